@@ -9,7 +9,7 @@ ORDER.admit-tracks        : every path that starts the thread also appends a tra
 import ast
 
 from sa.model import AnalysisError, walk_shallow, dotted, norm
-from sa.util import cfg_of, local_defs, shallow_calls
+from sa.util import cfg_of, local_defs, shallow_calls, expand_locals
 
 MUTATORS = {'append', 'appendleft', 'pop', 'popleft', 'clear', 'rotate', 'remove', 'extend', 'extendleft', 'insert'}
 
@@ -53,12 +53,13 @@ def check(run, model, tier):
     run.floor('out-of-resources raise sites', len(raises), 1)
     # tracking deque: the deque attribute whose length the admission test reads
     track = None
+    xtest = {n: expand_locals(n.ast, f.node, params=f.params) for n in g.nodes if n.kind == 'test'}
     for n in g.nodes:
         if n.kind == 'test':
-            for c in n.calls():
-                if isinstance(c.func, ast.Name) and c.func.id == 'len' and c.args:
+            for c in ast.walk(xtest[n]):
+                if isinstance(c, ast.Call) and isinstance(c.func, ast.Name) and c.func.id == 'len' and c.args:
                     d = dotted(c.args[0])
-                    if d and d.startswith('self.') and 'QUEUE_SIZE' in norm(n.ast):
+                    if d and d.startswith('self.') and 'QUEUE_SIZE' in norm(xtest[n]):
                         track = d
     if track is None:
         raise AnalysisError('admission test `len(self.<tracking deque>) <cmp> QUEUE_SIZE` not found')
@@ -86,7 +87,7 @@ def check(run, model, tier):
         run.inst('ORDER.admit-tracks', f, 'start implies tracked', mn >= 1,
                  'a path starts the timer thread without recording it in the tracking deque: cancel/stop cannot reach it', node=s.ast, obligation=True)
         # the admission test dominates the start
-        tests = [n for n in g.nodes if n.kind == 'test' and 'QUEUE_SIZE' in norm(n.ast) and track in norm(n.ast)]
+        tests = [n for n in g.nodes if n.kind == 'test' and 'QUEUE_SIZE' in norm(xtest[n]) and track in norm(xtest[n])]
         dom = any(g.dominates(t, s) for t in tests)
         run.inst('ORDER.reject-before-start', f, 'admission test dominates start', dom,
                  'thread.start() is not dominated by the capacity test', node=s.ast, obligation=True)
